@@ -1,3 +1,4 @@
+import AmrK.TasteDataProofs
 import AmrK.TasteComplete
 import AmrK.TasteCoordsProofs
 import AmrK.TasteAll
@@ -95,5 +96,28 @@ example :
 theorem coordinates_accepted (lo hi dx : Rat) (n : Nat) (i0 i1 : Nat) (h0 : i0 < n) (h1 : i1 < n) (h : hi = lo + (n : Rat) * dx) :
     TasteCoords.axisOK lo hi dx n i0 i1 (lo + (i0 : Rat) * dx) (lo + ((i1 : Rat) + 1) * dx) = some true :=
   TasteCoords.axisOK_exact lo hi dx n i0 i1 h0 h1 h
+
+/-- **binary data of a well-formed file is accepted** (`binary_data`; the executable check `TasteData.fileOK` over the
+    sequential scan `TasteData.scanAll` is run by the driver on the bytes of every binary file and compared with the real
+    validator): a file that is a concatenation of canonical FABs (`GoodFab`), whose rows in the level header - sorted by
+    offset - record for every checked component exactly the `np.min` / `np.max` of the stored 64-bit values (NaN, ±inf and
+    denormals included: `F64.ofBits` is the exact value of the bit pattern), passes -/
+theorem binary_data_accepted (nf : Nat) (hnf : 0 < nf) (fields : List Nat) (eps : List (Taste.Entry × Bytes))
+    (rows : List (List (Extrema.V × Extrema.V))) (fuel : Nat) (hfuel : eps.length < fuel)
+    (hg : ∀ p ∈ eps, Scan.GoodFab nf p) (hlen : eps.length ≤ rows.length)
+    (hx : ∀ (i : Nat) (r : List (Extrema.V × Extrema.V)) (p : Taste.Entry × Bytes), rows[i]? = some r → eps[i]? = some p →
+      TasteData.RowExact fields r (⟨p.1.lo, p.1.hi, (nf : Int)⟩ : Hdr) p.2) :
+    TasteData.fileOK fields rows (TasteData.scanAll (fileOf nf eps) fuel 0) = .good :=
+  TasteData.file_accepted nf hnf fields eps rows fuel hfuel hg hlen hx
+
+/-- non-vacuity: two FABs of one component (values 1.0, -3.0 | +inf) with their true rows pass; a wrong maximum does not -/
+example :
+    let one : Bytes := [0,0,0,0,0,0,0xF0,0x3F]
+    let m3 : Bytes := [0,0,0,0,0,0,0x08,0xC0]
+    let inf : Bytes := [0,0,0,0,0,0,0xF0,0x7F]
+    let file := fileOf 1 [(⟨[0,0,0],[1,0,0],"f",0⟩, one ++ m3), (⟨[2,0,0],[2,0,0],"f",0⟩, inf)]
+    TasteData.fileOK [0] [[(.fin (-3), .fin 1)], [(.pinf, .pinf)]] (TasteData.scanAll file 5 0) = .good ∧
+    TasteData.fileOK [0] [[(.fin (-3), .fin 2)], [(.pinf, .pinf)]] (TasteData.scanAll file 5 0) = .bad ∧
+    TasteData.fileOK [0] [[(.fin (-3), .fin 1)]] (TasteData.scanAll file 5 0) = .crash := by decide +kernel
 
 end C03
